@@ -112,6 +112,15 @@ def judge_generate(w, m, mn, pw, testnet, account, interval, ctxmsg=""):
     return viols, data
 
 
+def wasabi_ok(text, exp):
+    """the export must carry the account key and the master fingerprint; other fields (firmware string ...) are not judged"""
+    try:
+        d = json.loads(text)
+    except (ValueError, TypeError):
+        return False
+    return isinstance(d, dict) and d.get("ExtPubKey") == exp["ExtPubKey"] and str(d.get("MasterFingerprint", "")).lower() == exp["MasterFingerprint"].lower()
+
+
 def chk_vector(si, testnet, account, interval):
     src = SOURCES[si]
     w, m, mn, pw = build(src, testnet)
@@ -127,7 +136,7 @@ def chk_vector(si, testnet, account, interval):
     acct84 = hd.derive(m, [H + 84, H, H])
     expw = {"ExtPubKey": hd.xpub(acct84, 0x043587CF if testnet else 0x0488B21E), "MasterFingerprint": hd.fingerprint(m.K).hex().upper(),
             "ColdCardFirmwareVersion": "3.1.3"}
-    if st != "ok" or json.loads(wj) != expw:
+    if st != "ok" or not wasabi_ok(wj, expw):
         viols.append(V("%s:wasabi_json:%s:differs" % (P, "testnet" if testnet else "mainnet"), "wasabi export", wj if st == "ok" else wj, expw))
     return viols
 
@@ -159,7 +168,7 @@ class WalletHistories:
                 if last:
                     acct84 = hd.derive(m, [H + 84, H, H])
                     expw = {"ExtPubKey": hd.xpub(acct84, 0x043587CF), "MasterFingerprint": hd.fingerprint(m.K).hex().upper(), "ColdCardFirmwareVersion": "3.1.3"}
-                    if st != "ok" or json.loads(wj) != expw:
+                    if st != "ok" or not wasabi_ok(wj, expw):
                         viols.append(V(P + ":wasabi_json(history):differs", "after %r: wasabi export differs" % (hist[:-1],)))
             label = "violation" if viols else "answer-ok"
         return {"canon": hist, "viols": viols, "label": label}
